@@ -33,6 +33,10 @@ type Knobs struct {
 	// NestedLists: a member of a list may itself be a (short) list – the gob codec carries such a
 	// value faithfully, and JSON documents with arrays inside arrays exist
 	NestedLists bool
+	// Paragraphs: 1 text in 6 is a paragraph of 130..700 bytes (what a post's content or an actor's
+	// summary usually is), so that whatever a codec, a helper or a Format method does only above some
+	// length is reached; set by the checks that want it (never by DrawKnobs: other tapes stay as they are)
+	Paragraphs bool
 }
 
 // DrawKnobs draws a knob set from the tape.
@@ -162,6 +166,15 @@ func (g *G) Text() []byte {
 		n = 3
 	}
 	s := textPool[g.T.Draw(n)]
+	if g.K.Paragraphs && g.T.Bool(1, 6) {
+		want := 130 + g.T.Draw(571)
+		b := make([]byte, 0, want+40)
+		for len(b) < want {
+			b = append(b, textPool[g.T.Draw(n)]...)
+			b = append(b, ' ')
+		}
+		return b[:len(b):len(b)]
+	}
 	if g.K.SpareCap && g.T.Bool(1, 2) {
 		// a text whose slice has spare capacity holding sentinel bytes: an encoder that appends to
 		// the text it was given (a closing quote, a terminator) writes there
